@@ -144,6 +144,20 @@ def gen_dhcp():
                 "dhcp/config.rs parse_policy apply-subnet", lambda m: sum(int(x) for x in re.findall(r"[0-9]+", m.group(1))))
     defmin = grab("dhcp.defaultPoolMinLen", bdc, r"if\s+p4\.prefixlen\s*<\s*([0-9]+)\s*\{\s*return None;\s*\}\s*let subnet =", "dhcp/mod.rs build_default_config", lambda m: int(m.group(1)))
     submin = grab("dhcp.applySubnetMinLen", pp, r"if\s+subnet\.prefixlen\s*<\s*([0-9]+)\s*\{\s*return Err\(", "dhcp/config.rs parse_policy apply-subnet", lambda m: int(m.group(1)))
+    # option type table: which option codes carry IPv4 addresses (ip4 / ip4 list / routes) and may therefore say $self4
+    consts = {m.group(1): rust_int(m.group(2)) for m in re.finditer(r"pub const (OPTION_[A-Z0-9_]+): DhcpOption = DhcpOption\(([0-9_]+)\);", pkt)}
+    table = re.findall(r"\(\s*\"([a-z0-9-]+)\",\s*(OPTION_[A-Z0-9_]+),\s*DhcpOptionType::([A-Za-z0-9]+),?\s*\)", pkt)
+    ipcodes = sorted({consts[c] for _, c, t in table if t in ("Ip", "IpList") and c in consts})
+    rtcodes = sorted({consts[c] for _, c, t in table if t == "Routes" and c in consts})
+    okt = len(table) >= 60 and all(c in consts for _, c, _ in table)
+    record("dhcp.ipOptionCodes", ipcodes, "dhcppkt.rs option table", ok=okt and len(ipcodes) > 10)
+    record("dhcp.routeOptionCodes", rtcodes, "dhcppkt.rs option table", ok=okt and len(rtcodes) >= 1)
+    ap = fn_body(mod, "apply_policy")
+    rs = fn_body(mod, "resolve_self4") or ""
+    self4 = bool(ap and re.search(r"let v = v\.as_ref\(\)\.map\(\|v\| resolve_self4\(v, req\.serverip\)\);\s*response\.options\.mutate_option\(k, v\.as_ref\(\)\);", ap)) and \
+        bool(re.search(r"Ip\(ip\) => Ip\(own\(ip\)\),\s*IpList\(l\) => IpList\(l\.iter\(\)\.map\(own\)\.collect\(\)\),\s*Routes\(l\) => Routes\(", rs)) and \
+        bool(re.search(r"if std::net::IpAddr::V4\(\*ip\) == crate::config::INTERFACE4 \{\s*serverip\s*\} else \{\s*\*ip\s*\}", rs))
+    record("dhcp.policySelf4Resolved", self4, "dhcp/mod.rs apply_policy / resolve_self4", ok=self4)
     rng = grab("dhcp.applyRangeInclusive", pp, r"for\s+i\s+in\s+u32::from\(start\)\s*\.\.=\s*u32::from\(end\)", "dhcp/config.rs parse_policy apply-range", lambda m: True)
     hd = fn_body(mod, "handle_discover")
     offer51 = grab("dhcp.offerHasLeaseTime", hd, r"OPTION_LEASETIME", "dhcp/mod.rs handle_discover", lambda m: True)
@@ -181,6 +195,11 @@ def applySubnetUpperMinus : Nat := {nat(subk, "99")}
 /-- `addresses` prefixes shorter than this get no default pool; `apply-subnet` shorter than this is refused -/
 def defaultPoolMinLen : Nat := {nat(defmin)}
 def applySubnetMinLen : Nat := {nat(submin)}
+/-- option codes whose values are IPv4 addresses or lists of them / classless routes (dhcppkt.rs option table) -/
+def ipOptionCodes : List Nat := [{", ".join(map(str, ipcodes))}]
+def routeOptionCodes : List Nat := [{", ".join(map(str, rtcodes))}]
+/-- `apply_policy` replaces `$self4` in the values it applies by the receiving address -/
+def policySelf4Resolved : Bool := {boolean(self4)}
 /-- `apply-range` iterates `start..=end` -/
 def applyRangeInclusive : Bool := {boolean(rng)}
 /-- `handle_discover` sets option 51 (lease time) on the OFFER -/
